@@ -121,6 +121,9 @@ func uniInstants() []time.Time {
 		time.Date(1, 1, 1, 0, 0, 0, 0, time.UTC),
 		time.Date(9999, 12, 31, 23, 59, 59, 999999999, time.UTC),
 		time.Date(1969, 12, 31, 23, 59, 59, 5, time.UTC), // negative unix time
+		// a second instant on either side of the years UnixNano can represent (1678..2262)
+		time.Date(1564, 4, 26, 0, 0, 0, 0, time.UTC),
+		time.Date(2364, 1, 2, 3, 4, 5, 0, zoneE),
 	}
 }
 
